@@ -381,6 +381,10 @@ func (ex *Exec) newFnCtx(fn *ssa.Function, ct *Contract, top bool, prefix string
 
 // runBlock executes block b (arriving from pred) to the end of every path.
 func (ex *Exec) runBlock(st *State, fc *FnCtx, b *ssa.BasicBlock, pred *ssa.BasicBlock) {
+	if ex.regionStop != nil && b == ex.regionStop && ex.regionEnds != nil && fc.fn == b.Parent() {
+		*ex.regionEnds = append(*ex.regionEnds, regionEnd{st, pred})
+		return
+	}
 	if ex.paths > ex.maxPaths {
 		unsupported("path cap exceeded (%d)", ex.maxPaths)
 	}
@@ -407,6 +411,9 @@ func (ex *Exec) runInstrs(st *State, fc *FnCtx, b *ssa.BasicBlock, start int, pr
 				return
 			}
 			if ex.tryDiamond(st, fc, b, c) {
+				return
+			}
+			if ex.tryRegion(st, fc, b, c) {
 				return
 			}
 			st2 := st.clone()
@@ -856,6 +863,32 @@ func (ex *Exec) specEnvAt(st *State, fc *FnCtx) *SpecEnv {
 	env.locals = func(name string) (tv, bool) {
 		if name == "ridx" {
 			name = "rangeindex"
+		}
+		if len(name) == 5 && strings.HasPrefix(name, "ridx") && name[4] >= '1' && name[4] <= '9' {
+			// ridxN: the index cell of the N-th slice range of the function (block order)
+			want := int(name[4] - '0')
+			n := 0
+			for _, b := range fc.fn.Blocks {
+				for _, in := range b.Instrs {
+					a, ok := in.(*ssa.Alloc)
+					if !ok || a.Comment != "rangeindex" {
+						continue
+					}
+					n++
+					if n != want {
+						continue
+					}
+					if c, ok := st.cellOf[a]; ok {
+						v, ok := st.cells[c]
+						if !ok {
+							v = ex.u.zeroOf(c.typ)
+						}
+						return tv{T: v, Ty: c.typ}, true
+					}
+					return tv{}, false
+				}
+			}
+			return tv{}, false
 		}
 		// latest cell with that source name in this function
 		var best *Cell
